@@ -46,6 +46,7 @@ var SQLSeeds = []string{
 	"aaaaaaaaaaaaaaaaaaaaaaaaaaaaaa.select", "aaaaaaaaaaaaaaaaaaaaaaaaaaaaaaa.b", "aaaaaaaaaaaaaaaaaaaaaaaaaaaaaaaa.b", "select.aaaaaaaaaaaaaaaaaaaaaaaaaaaaaaaaaaaa",
 	"\x00", "\x00\x00", "1\x001", "a\x00b", "\xa0", "1\xa0or\xa01=1", "\x7f", "\x80", "\xff", "\xc5\xbf", "1 union \xc5\xbfelect 1 from x", "\xc4\xb1n (1)", "1 or\x0b1=1", "1\x0cor\x0d1=1",
 	"1 UNION SELECT 1 FROM a", "1 uNiOn SeLeCt 1", "1 OR 1=1", "1 Or 1=1",
+	"select u&'a' uescape '!'", "u&'d!0061t!+000061' uescape '!' or 1", "select e'a\\'b' 'c'", "1 or 'a' similar to 'b' escape '!'", "$body$a$body$ or 1", "$$a$$ or 1", "1 at time zone 'utc' or 1", "select x'1f' 'ab'", "interval '1' day or 1",
 	"1' or 1=1 -- 1", "1\" or \"a\"=\"a", "1' or 'a'='a' -- ", "1' and 1=1 #", "1' #\n or 1=1", "1 --x\n or 1=1", "1' --x\n or 1=1", "1\" --x\n or 1=1", "a\" or 1=1 #x",
 }
 
